@@ -10,6 +10,15 @@ CHECKS = {
    note='Trusted: CrossHair str/int/regex models, z3; reference readers in refs/readers.py; bound: lexeme <= 5 (quick) / 7 (thorough) chars, integers <= 6/9 digits; which master-regex rule takes a lexeme in context is left to C01/C02; floats not reasoned about; ambiguous back-slash/quote pairings outside the claim.'),
 }
 
+CHECKS['C05'] = dict(engine='SYMTOK+LRZ3+CH', category='model_checking', design='4/C05',
+   technique='symbolic token streams (z3 finite-domain token types, class-branching on LALR rows) through the real parse_sql/Parser.parse with an Earley oracle; z3 queries over the live LALR tables; CrossHair unit on the trailing strip',
+   text='Bounded symbolic exploration: every token stream of length <= K over the full terminal alphabet of each dialect (exact covered-stream count = |alphabet|^K certifies exhaustiveness) and every single-token edit / 1-token affix of each corpus statement is run through the real parse loop and error callbacks; on every accepting path all tokens were consumed, none skipped, and the sequence is a sentence of the live grammar (independent Earley recogniser). Table-level z3 queries show no state can shift the error token (no resynchronisation) in any of the 388/571/1273 states.',
+   note='Trusted: z3, our explorer (exhaustiveness self-checked by the covered count), Earley recogniser, representative lexeme per terminal. Bounds: K<=3 quick / 4 thorough; seeded neighbourhoods of 60 (quick) / all (thorough) corpus statements per dialect. Longer arbitrary streams outside the claim.')
+CHECKS['C02'] = dict(engine='SYMTOK+CH', category='model_checking', design='4/C02',
+   technique='symbolic token streams through the real parse_sql tail (z3-decided branching) + CrossHair units on the lexer error reporter, grammar actions and wrapper',
+   text='Bounded symbolic exploration of the real parse loop, the dialect error() callbacks and the un-stubbed ErrorHandling (including its re-parses of suggestions) over all streams of <= K tokens and corpus neighbourhoods: every path ends in a tree or ParsingException. CrossHair units make the token *values* symbolic for the value-dependent grammar actions and the lexer error reporter.',
+   note='Trusted: z3, CrossHair, explorer. Token values are representatives in SYMTOK (value-dependent crashes only via the CH units listed in the evidence); RecursionError on deep nesting not modelled; K<=3 quick / 4 thorough.')
+
 NA_PENDING = {}
 
 
